@@ -204,6 +204,14 @@ func init() {
 				}
 				res := harnRunOpt(engine.Options{Face: face}, c03Build(in, limbs, V).Define)
 				o.Events += events(res)
+				if !honest && res.Verdict == engine.Reject && face == engine.Plain && c.Kind == "kp" {
+					// existential over hint outputs: forged bit decomposition of the oversized limb
+					r2 := harnRunOpt(engine.Options{Face: face, Policy: bitsPolicy{limbs[c.Int("i")]}}, c03Build(in, limbs, V).Define)
+					o.Events += events(r2)
+					if r2.Verdict == engine.Accept {
+						res = r2
+					}
+				}
 				if io, bad := inconclusiveIf(res); bad {
 					return io
 				}
